@@ -57,6 +57,10 @@ SCHEMES = {
     "padlike": {"a": ".pad", "b": "0", "d": ".pad", "c": "16384"},
     "backslash": {"a": "a\\b", "b": "\\b", "d": "d\\e", "c": "c\\"},      # legal POSIX names containing the other platform's separator
     "percent": {"a": "100% done", "b": "%s", "d": "My%20Dir", "c": "%(x)s", "z": "%"},
+    "v2keys": {"a": "length", "b": "pieces root", "d": "attr", "c": "path", "e": "files", "z": "name"},   # names of metafile keys
+    # not stable under Unicode normalisation, with siblings that sort between the decomposed and the composed spelling
+    "decomposed": {"a": "e\u0301tude.bin", "b": "fugue.bin", "d": "cafe\u0301", "c": "\u212b.dat", "e": "z", "z": "\ufb01n"},
+    "tilde": {"a": "~", "b": "~root", "d": "~", "c": "~x", "z": "~~"},
 }
 
 
